@@ -1,6 +1,6 @@
 """C28 — hy.repr: quoting / cycle state is restored on every exit of hy-repr."""
 CANON = True
-LENIENT = False  # rules over .hy sources (own s-expression reader); no canonical form there
+LENIENT = True   # .hy rules: a failed test is believed only for armed instances in a nearly-unchanged form (fdiff.hy_small_edit)
 
 import re
 
@@ -132,7 +132,18 @@ def check(ctx, src):
     ctx.check(test_i < add_i < try_i, "REPR-ORDER", f"{REL}|hy-repr|test<add<try",
               "the cycle test must precede `.add _seen`, and both must precede the try", REL, body[add_i].line,
               witness="a self-referential list recurses for ever / an id is added that the finally never sees", detail="test, add, try in order")
-    ctx.check(add_i + 1 == try_i, "REPR-ORDER", f"{REL}|hy-repr|add-adjacent-try",
+    def _inert(v):
+        """A value whose evaluation cannot run user code or raise: literals, locals, and (if FLAG a b) on the owner flag."""
+        if v.kind in ("sym", "str", "num", "kw"):
+            return True
+        if v.kind == "expr" and v.head() == "if" and len(v.items) == 4 and v.items[1].is_sym(flag):
+            return all(_inert(x) for x in v.items[2:])
+        return False
+
+    def _inert_stmt(st):
+        return st.head() == "setv" and all(t.kind == "sym" and not t.is_sym("_quoting") and not t.is_sym("_seen") and _inert(v) for t, v in _setv_targets(st))
+
+    ctx.check(all(_inert_stmt(st) for st in body[add_i + 1:try_i]), "REPR-ORDER", f"{REL}|hy-repr|add-adjacent-try",
               "there is code between `.add _seen` and the protecting try", REL, body[add_i].line,
               witness="an exception between the add and the try leaves the id in _seen", detail="add immediately precedes try")
     if write_i is not None:
@@ -144,6 +155,8 @@ def check(ctx, src):
                 ctx.ok("REPR-ORDER", key, "(id obj) cannot run user code")
             elif st.head() == ".add" and st.items[1].is_sym("_seen"):
                 ctx.ok("REPR-ORDER", key, "set.add of an int")
+            elif _inert_stmt(st):
+                ctx.ok("REPR-ORDER", key, "binds a local to a literal / local: cannot raise")
             elif st.head() in ("when", "if") and re.search(r"\(in \S+ _seen\)", st.items[1].src()) and "return" in s:
                 # allow-list: infeasible with started-quoting true (object already in _seen and a model => _quoting already true)
                 bad_inner = [n for n in st.walk() if n.kind == "expr" and n.items and n.items[0].kind == "sym"
